@@ -113,6 +113,7 @@ def elementwise(F, mon):
     # dtype monitors, and its cells are the truth values of Python's own operation
     LOGIC = {"and": operator.and_, "or": operator.or_, "xor": operator.xor}
     flagsets = {"int flags": ([5, 6, 0, 3], [4, 1, 0, 2], 4), "bools": ([True, False, True, False], [True, True, False, False], True),
+                "flags with a gap": ([True, None, False, True], [True, True, True, False], True), "gaps on the right": ([True, False, True, True], [True, None, None, False], True),
                 "bools with int scalar": ([True, False, True, False], [1, 0, 0, 1], 1), "sets": ([{1, 2}, {2}, set(), {3}], [{2}, {1}, {1}, {3}], {2})}
     for fname, (a, b, scalar) in flagsets.items():
         for opname, fn in LOGIC.items():
@@ -128,11 +129,58 @@ def elementwise(F, mon):
                 try:
                     exp = [bool(fn(y, x)) if oname.startswith("reflected") else bool(fn(x, y)) for x, y in zip(a, ys)]
                 except Exception:      # noqa: BLE001
-                    exp = None
+                    exp = None          # (a None operand: Python has no answer; the cells are not compared)
                 got = list(r)
                 if exp is not None and (got != exp or any(type(g) is not bool for g in got)):
                     F.add("form_logic", case, got, exp)
+                # a logical result is a non-nullable boolean vector - whatever the operands were - and works as a mask
+                if str(r.schema()) != "<bool>" or any(type(g) is not bool for g in got):
+                    F.add("form_logic", case, {"dtype": str(r.schema()), "cells": got}, "<bool> over booleans")
+                else:
+                    stm, sel, em = attempt(lambda: Vector(list(range(len(got))))[r])
+                    if stm != "ok" or list(sel) != [i for i, g in enumerate(got) if g]:
+                        F.add("form_logic", dict(case, used="as a mask"), type(em).__name__ if stm != "ok" else list(sel), [i for i, g in enumerate(got) if g])
                 mon.see(r, "logical operator on " + fname, rule=False)
+    # cells narrower than the vector's kind (exact ints inside a float vector - results of int ** negative int next to
+    # int ** positive int -, bools inside an int vector, dates inside a datetime vector): the operator is applied to THE CELL
+    from datetime import datetime as _dtm2, timedelta as _td
+    narrow = {"float holding big ints": [2 ** 61 - 1, 0.5, -(2 ** 60 + 1), None, 3], "complex holding big ints": [2 ** 61 - 1, 1j, None, -(2 ** 60 + 1)],
+              "int holding bools": [True, 7, False, None, -(2 ** 62)], "made by **": None}
+    unary = {"neg": operator.neg, "pos": operator.pos, "abs": abs}
+    for nname, cells in narrow.items():
+        if cells is None:
+            st, v0, e = attempt(lambda: Vector([2, 3, 5]) ** Vector([61, -1, 2]))
+            if st != "ok":
+                continue
+            cells = list(v0)
+        for uname, fn in unary.items():
+            v = Vector(list(cells), name="n")
+            st, r, e = attempt(lambda: fn(v))
+            ex += 1
+            try:
+                exp = [None if x is None else fn(x) for x in cells]
+            except Exception:      # noqa: BLE001
+                continue
+            if st != "ok" or not isinstance(r, Vector):
+                continue
+            if not views_equal(list(r), exp) or [type(g) for g in r] != [type(x) for x in exp]:
+                F.add("form_elementwise", {"vector": nname, "op": uname}, [repr(g) for g in r], [repr(x) for x in exp])
+            mon.see(r, "unary operator on " + nname)
+        for bname, fn in (("add", operator.add), ("sub", operator.sub), ("mul", operator.mul), ("floordiv", operator.floordiv), ("mod", operator.mod)):
+            for oname, other in (("int scalar", 1), ("float scalar", 1.0), ("reflected int scalar", 3)):
+                if "complex" in nname and bname in ("floordiv", "mod"):
+                    continue
+                v = Vector(list(cells), name="n")
+                st, r, e = attempt(lambda: fn(other, v) if oname.startswith("reflected") else fn(v, other))
+                ex += 1
+                try:
+                    exp = [None if x is None else (fn(other, x) if oname.startswith("reflected") else fn(x, other)) for x in cells]
+                except Exception:      # noqa: BLE001
+                    continue
+                if st != "ok" or not isinstance(r, Vector):
+                    continue
+                if not views_equal(list(r), exp) or [type(g) for g in r] != [type(x) for x in exp]:
+                    F.add("form_elementwise", {"vector": nname, "op": bname, "other": oname}, [repr(g) for g in r], [repr(x) for x in exp])
     # v << x and x << v with x in every container form: the cells in order, and the dtype of the list form
     for lk, lv in DATA.items():
         for xname, xs in (("wider kind", [2.5]), ("None", [None]), ("text", ["s"]), ("same kind", lv[:1]), ("two cells", [lv[0], 2.5]), ("nothing", [])):
@@ -492,6 +540,58 @@ def relational(F, mon):
                     F.add("form_join", case, "accepted" if st == "ok" else type(e).__name__ + ": " + str(e)[:80], "accepted" if st0 == "ok" else "refused (" + type(e0).__name__ + ")")
                 elif st == "ok" and not views_equal(table_view(r), table_view(r0)):
                     F.add("form_join", case, view(r), view(r0))
+    # a key NAME that two columns carry (the result of an earlier join, of >>) means the first of them - as t[name] does - in
+    # every operation that takes column names; the outcome is that of handing over that column object
+    def dup():
+        return Table([Vector([1, 2, 3, 2], name="id"), Vector(["x", "y", "x", "y"], name="g"), Vector([3, 1, 2, 1], name="id"), Vector([10, 20, 30, 40], name="val")])
+    other = lambda: Table({"id": [1, 2, 3], "z": ["p", "q", "r"]})       # noqa: E731
+    dup_calls = {"inner_join": lambda t, k: t.inner_join(other(), k, "id", expect="many_to_many"), "join": lambda t, k: t.join(other(), k, "id", expect="many_to_many"),
+                 "full_join": lambda t, k: t.full_join(other(), k, "id", expect="many_to_many"),
+                 "join (repeated name on the right)": lambda t, k: other().join(t, "id", k, expect="many_to_many"),
+                 "inner_join (two keys)": lambda t, k: t.inner_join(Table({"id": [1, 2, 3], "g": ["x", "y", "x"], "z": [1, 2, 3]}), [k, "g"], ["id", "g"], expect="many_to_many"),
+                 "sort_by": lambda t, k: t.sort_by(k), "aggregate": lambda t, k: t.aggregate(over=k, sum_over="val"), "window": lambda t, k: t.window(over=k, sum_over="val"),
+                 "aggregate value": lambda t, k: t.aggregate(over="g", max_over=k)}
+    for cname, call in dup_calls.items():
+        t = dup()
+        st0, r0, e0 = attempt(lambda: call(t, t.cols()[0]))
+        st, r, e = attempt(lambda: call(t, "".join(["i", "d"])))
+        ex += 1
+        if st != "ok" or st0 != "ok":
+            continue
+        if not views_equal(table_view(r), table_view(r0)):
+            F.add("form_" + cname.split()[0].replace("inner_join", "join").replace("full_join", "join"),
+                  {"call": cname, "key": "a stored name that two columns carry", "means": "the first of them"}, view(r), view(r0))
+    # joins with a table that has columns but NO rows (a filter that kept nothing): every column of both sides is there,
+    # with its name, whatever the names are (repeated, absent)
+    def lt():
+        return Table({"k": [1, 2, 2], "v": [5, 6, 7]})
+    for rnames in (["k", "p", "q"], ["k", "p", "p"], ["k", None, None], ["k", "v", "v"], ["k"]):
+        for m in ("inner_join", "join", "full_join"):
+            for side in ("empty right", "empty left"):
+                z = Table([Vector([], dtype=int, name=nm) for nm in rnames])
+                zf = Table([Vector([9, 8], name=nm) for nm in rnames])[[False, False]]
+                for zname, zt in (("built empty", z), ("filtered to nothing", zf)):
+                    a, b = (lt(), zt) if side == "empty right" else (zt, lt())
+                    st, r, e = attempt(lambda: getattr(a, m)(b, "k", "k", expect="many_to_many"))
+                    ex += 1
+                    if st != "ok" or not isinstance(r, Table):
+                        continue
+                    case = {"call": m, "side": side, "empty table": zname, "its column names": rnames}
+                    want_names = a.column_names() + b.column_names()
+                    keeps = (m == "join" and side == "empty right") or m == "full_join"
+                    want_rows = 3 if keeps else 0
+                    if len(r) == 0 and len(r.cols()) == 0 and want_rows == 0:
+                        continue                    # an empty result may be the empty table
+                    if r.column_names() != want_names or len(r.cols()) != len(want_names):
+                        F.add("form_join", case, {"names": r.column_names(), "shape": list(r.shape)}, {"names": want_names, "rows": want_rows})
+                    elif len(r) != want_rows:
+                        F.add("form_join", case, {"rows": len(r)}, {"rows": want_rows})
+                    elif want_rows:
+                        cells = [list(c) for c in r.cols()]
+                        lcols = [list(c) for c in lt().cols()]
+                        exp = (lcols + [[None] * 3 for _ in rnames]) if side == "empty right" else ([[None] * 3 for _ in rnames] + lcols)
+                        if not views_equal(cells, exp):
+                            F.add("form_join", case, cells, exp)
     # a table joined with ITSELF is joined with an equal table: the same rows as against a distinct copy, whether the two key
     # sides name the same column or different ones (employee / boss)
     def emp():
@@ -1123,6 +1223,67 @@ def self_values(F, mon):
     return ex
 
 
+def mixed_shapes(F, mon):
+    """C02: structure operations on tables whose ROWS mix kinds (a date next to a datetime, an int next to a float, a bool
+    next to an int) and whose column NAMES repeat or are absent: transposing twice gives back the original cells - the same
+    objects' values AND types -, rows are the tuples of the cells, << and >> keep every column"""
+    from datetime import datetime as _dtm
+    ex = 0
+    tables = {
+        "date | datetime": [[date(2024, 5, 1), date(2024, 5, 2)], [_dtm(2024, 1, 1, 5), _dtm(2024, 1, 2, 6)]],
+        "int | float": [[1, 2], [0.5, 2.0]], "bool | int": [[True, False], [1, 0]], "int | float | complex": [[1, 2], [1.0, 2.5], [1j, 2j]],
+        "int | None-only": [[1, 2], [None, None]], "int? | float": [[1, None], [0.5, 1.0]], "date | datetime | None": [[date(2024, 5, 1), None], [None, _dtm(2024, 1, 2, 6)]],
+        "bool | float": [[True, False], [1.0, 0.0]], "str | int": [["a", "b"], [1, 2]], "one row": [[date(2024, 5, 1)], [_dtm(2024, 1, 1, 5)], [1]],
+    }
+
+    def typed(cols):
+        return [[(type(x).__name__, x) for x in col] for col in cols]
+    for tname, cols in tables.items():
+        for names in (["c%d" % i for i in range(len(cols))], ["id"] * len(cols), [None] * len(cols), ["id", "ID", "id"][:len(cols)]):
+            def build():
+                return Table([Vector(list(col), name=nm) for col, nm in zip(cols, names)])
+            st, t, e = attempt(build)
+            if st != "ok":
+                continue
+            case = {"table": tname, "names": names}
+            nr, nc = len(cols[0]), len(cols)
+            st, r, e = attempt(lambda: t.T.T)
+            ex += 1
+            if st == "ok" and isinstance(r, Table):
+                got = [list(c) for c in r.cols()]
+                if typed(got) != typed(cols) and not all(views_equal(g, c) and [type(x) for x in g] == [type(x) for x in c] for g, c in zip(got, cols)):
+                    F.add("transpose", case, [[repr(x) for x in c] for c in got], [[repr(x) for x in c] for c in cols])
+            for i in range(nr):
+                st, row, e = attempt(lambda: list(t[i]))
+                want = [col[i] for col in cols]
+                if st == "ok" and (not views_equal(row, want) or [type(x) for x in row] != [type(x) for x in want]):
+                    F.add("row_view", dict(case, row=i), [repr(x) for x in row], [repr(x) for x in want])
+            st, rows, e = attempt(lambda: [list(rw) for rw in t])
+            want_rows = [[col[i] for col in cols] for i in range(nr)]
+            if st == "ok" and [[(type(x).__name__, repr(x)) for x in rw] for rw in rows] != [[(type(x).__name__, repr(x)) for x in rw] for rw in want_rows]:
+                F.add("row_view", dict(case, how="iteration"), [[repr(x) for x in rw] for rw in rows], [[repr(x) for x in rw] for rw in want_rows])
+            # << keeps every column (a row of the table's own cells appended), >> appends
+            new_row = [col[0] for col in cols]
+            for label, mk, exp in (("t << row", lambda: build() << list(new_row), [col + [col[0]] for col in cols]),
+                                   ("t << t", lambda: build() << build(), [col + col for col in cols]),
+                                   ("t << t[0:1]", lambda: build() << build()[0:1], [col + col[0:1] for col in cols]),
+                                   ("t >> t", lambda: build() >> build(), cols + cols),
+                                   ("t >> {name: cells}", lambda: build() >> {(names[0] or "z"): list(cols[0])}, cols + [cols[0]])):
+                st, r, e = attempt(mk)
+                ex += 1
+                if st != "ok" or not isinstance(r, Table):
+                    continue
+                got = [list(c) for c in r.cols()]
+                lens = {"shape": list(r.shape), "len": len(r), "column lengths": [len(c) for c in got]}
+                if len({len(c) for c in got}) > 1 or len(r) != len(exp[0]) or list(r.shape) != [len(exp[0]), len(exp)]:
+                    F.add("rectangular", dict(case, operation=label), lens, {"shape": [len(exp[0]), len(exp)]})
+                elif not views_equal(got, exp):
+                    F.add("append_rows" if "<<" in label else "stack", dict(case, operation=label), [[repr(x) for x in c] for c in got], [[repr(x) for x in c] for c in exp])
+                for c in r.cols():
+                    mon.see(c, label + " on a table of mixed rows")
+    return ex
+
+
 def promotions(F, mon):
     """C18 / C03 / C01: an in-place write that changes a vector's kind or nullability (int -> float -> complex, bool -> int,
     date -> datetime, anything -> object, a first None) is still a write to THAT vector: its name, the table's column names
@@ -1132,7 +1293,34 @@ def promotions(F, mon):
     steps = {"int -> float": ([1, 2, 3], 2.5), "int -> complex": ([1, 2, 3], 2j), "float -> complex": ([1.5, 2.5, 3.5], 1j), "bool -> int": ([True, False, True], 7),
              "date -> datetime": ([date(2020, 1, 1), date(2020, 1, 2), date(2020, 1, 3)], _dtm(2021, 5, 6, 7, 8)), "int -> object": ([1, 2, 3], "s"),
              "str -> object": (["a", "b", "c"], 5), "int -> int?": ([1, 2, 3], None), "date -> date?": ([date(2020, 1, 1), date(2020, 1, 2), date(2020, 1, 3)], None),
-             "float? -> complex?": ([1.5, None, 3.5], 1j), "date? -> datetime?": ([date(2020, 1, 1), None, date(2020, 1, 3)], _dtm(2021, 5, 6, 7, 8))}
+             "float? -> complex?": ([1.5, None, 3.5], 1j), "date? -> datetime?": ([date(2020, 1, 1), None, date(2020, 1, 3)], _dtm(2021, 5, 6, 7, 8)),
+             "int -> float (nan)": ([1, 2, 3], float("nan")), "int -> float (inf)": ([1, 2, 3], float("inf")), "bool -> float": ([True, False, True], 0.5)}
+    # no-argument methods / properties of the cell types: after the promotion they are still applied to every cell
+    probes = ("isoformat", "year", "month", "day", "weekday", "toordinal", "hour", "minute", "date", "is_integer", "hex", "real", "imag", "conjugate",
+              "bit_length", "upper", "lower", "title", "as_integer_ratio")
+
+    def after_promotion(v, case):
+        """C16: the fingerprint is that of a freshly built vector of the same cells; C05: broadcast methods see the cells"""
+        cells = list(v)
+        st, fp, e = attempt(lambda: v.fingerprint())
+        st0, fp0, e0 = attempt(lambda: Vector(list(cells)).fingerprint())
+        if st == "ok" and st0 == "ok" and fp != fp0 and str(Vector(list(cells)).schema()) == str(v.schema()):
+            F.add("fp_fresh", case, fp, fp0)
+        own = set(dir(Vector))
+        for name in probes:
+            if name in own and name not in type(v).__dict__:
+                continue
+            try:
+                exp = [None if x is None else (getattr(x, name)() if callable(getattr(x, name)) else getattr(x, name)) for x in cells]
+            except Exception:      # noqa: BLE001
+                continue
+            if all(x is None for x in cells):
+                continue
+            stb, r, eb = attempt(lambda: getattr(v, name)() if callable(getattr(type(next(x for x in cells if x is not None)), name, None)) else getattr(v, name))
+            if stb != "ok" or not isinstance(r, Vector):
+                continue
+            if not views_equal(list(r), exp):
+                F.add("form_broadcast", dict(case, attribute=name), list(r), exp)
     vwrites = {"v[1] = x": lambda v, x: v.__setitem__(1, x), "v[-1] = x": lambda v, x: v.__setitem__(-1, x), "v[0:2] = [x, x]": lambda v, x: v.__setitem__(slice(0, 2), [x, x]),
                "v[mask] = x": lambda v, x: v.__setitem__([True, False, False], x), "v[[2]] = [x]": lambda v, x: v.__setitem__([2], [x]), "v[:] = x": lambda v, x: v.__setitem__(slice(None), x)}
     twrites = {"t[1, 'due'] = x": lambda t, x: t.__setitem__((1, "due"), x), "t[0:2, 'due'] = [x, x]": lambda t, x: t.__setitem__((slice(0, 2), "due"), [x, x]),
@@ -1150,11 +1338,81 @@ def promotions(F, mon):
                 if v.name != nm:
                     F.add("names", case, v.name, nm)
                 mon.see(v, "vector after a promoting write (" + sname + ")")
+                if nm == "due":
+                    after_promotion(v, case)
                 st2, w, e2 = attempt(lambda: v[0:2])
                 if st2 == "ok" and isinstance(w, Vector):
                     if w.name != nm:
                         F.add("names", dict(case, then="v[0:2]"), w.name, nm)
                     mon.see(w, "slice after a promoting write")
+        # a REFUSED write of a promoting value (index out of range, lengths that differ) after the fingerprint was read:
+        # the vector is exactly what it was - cells, dtype, name - and its fingerprint is still that of its cells
+        refused = {"v[[0, 7]] = [x, x]": lambda v, x: v.__setitem__([0, 7], [x, x]), "v[7] = x": lambda v, x: v.__setitem__(7, x),
+                   "v[0:2] = [x]": lambda v, x: v.__setitem__(slice(0, 2), [x]), "v[[True, False]] = x": lambda v, x: v.__setitem__([True, False], x),
+                   "v[Vector([0, -9])] = [x, x]": lambda v, x: v.__setitem__(Vector([0, -9]), [x, x]), "v[[0, 1]] = [x, object()] into a typed vector": None}
+        for rname, rw in refused.items():
+            if rw is None:
+                continue
+            for read_first in (True, False):
+                v = Vector(list(vals), name="due")
+                before = vec_view(v)
+                if read_first:
+                    attempt(lambda: v.fingerprint())
+                st, _, e = attempt(lambda: rw(v, x))
+                ex += 1
+                case = {"promotion": sname, "refused write": rname, "fingerprint read before": read_first, "outcome": "accepted" if st == "ok" else type(e).__name__}
+                if st == "ok":
+                    continue
+                if not views_equal(vec_view(v), before):
+                    F.add("form_assign_atomic", case, vec_view(v), before)
+                stf, fp, ef = attempt(lambda: v.fingerprint())
+                stf0, fp0, ef0 = attempt(lambda: Vector(list(vals), name="due").fingerprint())
+                if stf == "ok" and stf0 == "ok" and fp != fp0:
+                    F.add("fp_fresh", case, fp, fp0)
+        for rname, rw in (("t[[0, 7], 'due'] = [x, x]", lambda t, x: t.__setitem__(([0, 7], "due"), [x, x])), ("t[7, 'due'] = x", lambda t, x: t.__setitem__((7, "due"), x)),
+                          ("t[0:2, 'due'] = [x]", lambda t, x: t.__setitem__((slice(0, 2), "due"), [x]))):
+            t = Table([Vector([1, 2, 3], name="id"), Vector(list(vals), name="due")])
+            before = table_view(t)
+            attempt(lambda: t.fingerprint())
+            attempt(lambda: t.due.fingerprint())
+            st, _, e = attempt(lambda: rw(t, x))
+            ex += 1
+            if st == "ok":
+                continue
+            case = {"promotion": sname, "refused write": rname, "outcome": type(e).__name__}
+            if not views_equal(table_view(t), before):
+                F.add("grid_atomic", case, table_view(t), before)
+            stf, fp, ef = attempt(lambda: (t.fingerprint(), t.due.fingerprint()))
+            stf0, fp0, ef0 = attempt(lambda: (lambda u: (u.fingerprint(), u.due.fingerprint()))(Table([Vector([1, 2, 3], name="id"), Vector(list(vals), name="due")])))
+            if stf == "ok" and stf0 == "ok" and fp != fp0:
+                F.add("fp_fresh", case, fp, fp0)
+        # the value of an assignment is an operand: a vector handed over as the value keeps its cells and its dtype, also when the
+        # target is of a wider kind
+        for kname, key, n in (("v[0:2] = w", slice(0, 2), 2), ("v[[0, 2]] = w", [0, 2], 2), ("v[mask] = w", [True, False, True], 2), ("v[:] = w", slice(None), 3)):
+            v = Vector(list(vals), name="due")
+            attempt(lambda: v.__setitem__(1, x))               # the target is of the wider kind now
+            src_cells = list(vals)[:n]
+            w = Vector(list(src_cells), name="src")
+            before = vec_view(w)
+            st, _, e = attempt(lambda: v.__setitem__(key, w))
+            ex += 1
+            if not views_equal(vec_view(w), before):
+                F.add("operands_unchanged", {"promotion": sname, "assignment": kname, "value": "a vector of the narrower kind", "outcome": "ok" if st == "ok" else type(e).__name__},
+                      vec_view(w), before)
+        tsrc = Table([Vector(list(vals), name="p"), Vector(list(vals), name="q")])
+        ttgt = Table([Vector(list(vals), name="a"), Vector(list(vals), name="b")])
+        attempt(lambda: ttgt.__setitem__((1, "a"), x))
+        attempt(lambda: ttgt.__setitem__((1, "b"), x))
+        before = table_view(tsrc)
+        for kname, w in (("t[:, :] = other table", lambda: ttgt.__setitem__((slice(None), slice(None)), tsrc)), ("t[0:3, ('a','b')] = other table", lambda: ttgt.__setitem__((slice(0, 3), ("a", "b")), tsrc)),
+                         ("t[:, ('a','b')] = [other.p, other.q]", lambda: ttgt.__setitem__((slice(None), ("a", "b")), [tsrc.p, tsrc.q]))):
+            st, _, e = attempt(w)
+            ex += 1
+            if not views_equal(table_view(tsrc), before):
+                F.add("operands_unchanged", {"promotion": sname, "assignment": kname, "value": "a table / columns of the narrower kind", "outcome": "ok" if st == "ok" else type(e).__name__},
+                      table_view(tsrc), before)
+                tsrc = Table([Vector(list(vals), name="p"), Vector(list(vals), name="q")])
+                before = table_view(tsrc)
         for wname, write in twrites.items():
             t = Table([Vector([1, 2, 3], name="id"), Vector(list(vals), name="due"), Vector(["p", "q", "r"], name="note")])
             st, _, e = attempt(lambda: write(t, x))
@@ -1168,6 +1426,7 @@ def promotions(F, mon):
                 F.add("names", dict(case, read="column objects"), [c.name for c in t.cols()], ["id", "due", "note"])
             for col in t.cols():
                 mon.see(col, "column after a promoting table write (" + sname + ")")
+            after_promotion(t.cols()[1], dict(case, column="due"))
             for dname, d in (("t[0:2]", lambda: t[0:2]), ("t.copy()", lambda: t.copy()), ("t[('due','id')]", lambda: t[("due", "id")]), ("t.sort_by('id')", lambda: t.sort_by("id"))):
                 st2, r, e2 = attempt(d)
                 if st2 == "ok" and isinstance(r, Table):
@@ -1209,7 +1468,7 @@ def promotions(F, mon):
 def main():
     out = sys.argv[1]
     F, mon = Fails(), Monitor()
-    ex = elementwise(F, mon) + indexing(F, mon) + relational(F, mon) + purity(F, mon) + grid2d(F, mon) + held_views(F, mon) + history_reads(F, mon) + odd_operands(F, mon) + promotions(F, mon) + self_values(F, mon)
+    ex = elementwise(F, mon) + indexing(F, mon) + relational(F, mon) + purity(F, mon) + grid2d(F, mon) + held_views(F, mon) + history_reads(F, mon) + odd_operands(F, mon) + promotions(F, mon) + self_values(F, mon) + mixed_shapes(F, mon)
     json.dump({"executed": ex, "failures": F.items, "per_clause": F.per, "skipped": {}, **mon.dump()}, open(out, "w"), default=str)
 
 
